@@ -29,6 +29,7 @@ mod ids;
 mod life;
 mod limits;
 mod peer;
+mod pipeline;
 mod reasm;
 mod recvcredit;
 mod session;
@@ -109,6 +110,7 @@ fn main() {
         "life" => life::main(&opts),
         "typed" => typed::main(&opts),
         "held" => held::main(&opts),
+        "pipeline" => pipeline::main(&opts),
         "probe-to-value" => typed::probe_to_value(&opts),
         other => {
             eprintln!("unknown module {}", other);
